@@ -247,10 +247,13 @@ class CoroRun:
                 j = byid.get(csid)
                 plans = self.plansets[j[1]] if j else []
                 if timed_out:
-                    key_o = "hang"
+                    hf = core.hang_summary(err)
+                    key_o = "hang" + (":" + ">".join(hf) if hf else "")
+                elif rc == 89 and "event log overflow" in err:
+                    key_o = "runaway:event-log-overflow"
                 else:
                     ss = core.san_summary(err)
-                    key_o = (ss[0] + ":" + ">".join(ss[1][:4])) if ss else "crash:rc%s" % rc
+                    key_o = (ss[0] + ":" + ">".join(ss[1][:4])) if ss else core.abort_summary(err, rc)
                 info = results.get(csid, {"lines": []}) if csid is not None else {"lines": []}
                 text = "plans: %s\nscenario: %s\nvariant: %s seed: %d rc=%s\n\npartial log:\n%s\n\nstderr:\n%s\n" % (
                     coro_model.plan_text(plans), scn_line(j[2], 0, j[3], plans) if j else "?", self.variant,
